@@ -67,4 +67,33 @@ PROPS = {
         ],
         "expected_probes": ["Corrupt", "enum_truncations_fired", "sampled_mutations_fired", "clean_runs"],
     },
+    "C18": {
+        "engine": "tsim",
+        "parts": ["C18"],
+        "part_engines": {"C18": "tsim"},
+        "level": "exploration",
+        "technique": "deterministic simulation with fault injection (shuttle-controlled thread schedules over the real MonotonicTimestampGenerator with a seeded faulty wall clock as scheduling point)",
+        "rule": "each case = one shuttle execution: 2..4 threads x 2..6 next_timestamp() calls on one real MonotonicTimestampGenerator; the hooked wall clock returns a seeded walk (stall, repeated microsecond, step back up to 3 s, step/jump forward, pre-epoch) and is a scheduling point sitting between the load and the compare_exchange; schedulers: seeded random and PCT depth 2-3; workload drawn from shuttle::rand so a recorded schedule replays the whole execution. Non-trivial = operations of two threads overlapped or a clock fault fired. Distinct = distinct hashes of the observed event history.",
+        "assumptions": [
+            "sequential consistency per scheduling point (one shuttle thread runs at a time; std atomics are not remodelled): weak-memory effects are out of scope",
+            "scheduling points are the hooked clock read and the harness's own yields",
+            "oracles: all values handed out by one generator are pairwise distinct; each thread's own sequence strictly increases",
+            "a clean batch is evidence over the sampled schedules, not a proof",
+        ],
+        "expected_probes": ["ClockStall", "ClockStepBack", "cas_retry"],
+    },
+    "C19": {
+        "engine": "tsim",
+        "parts": ["C19"],
+        "part_engines": {"C19": "tsim"},
+        "level": "exploration",
+        "technique": "deterministic simulation with fault injection (shuttle-controlled producer/consumer schedules over the real merge channel with hook-supplied scheduling points between every shared-state operation)",
+        "rule": "each case = one shuttle execution of a producer thread (modify: push unique id / no-op / retract; drop sender early, late or after an acknowledged sentinel) and a consumer thread (recv under block_on, recv cancelled after one poll and restarted, try_recv, early receiver drop) on one real merge_channel; scheduling points from cfg(scylla_verif) hooks between the flag loads/stores, slot critical section, notify_one, enable() and take(); schedulers: seeded random and PCT depth 2-3. Non-trivial = producer and consumer operations overlapped or a fault (cancel, retract, drop race) fired. Distinct = distinct hashes of the observed event history incl. the scheduling sites hit.",
+        "assumptions": [
+            "sequential consistency per scheduling point; tokio::sync::Notify is real code but its internals have no extra scheduling points",
+            "oracles: concatenation of received values == merged-and-not-retracted ids in order, each once; None only after the sender is gone and the last value taken; a consumer parked forever while a value is pending or the sender is gone = shuttle deadlock = lost wake-up; modify errs when the receiver's drop completed before the call and succeeds when the drop had not begun when it returned (the racing window is not judged)",
+            "a clean batch is evidence over the sampled schedules, not a proof (the quantifier's 'exhaustive' is not claimed)",
+        ],
+        "expected_probes": ["RecvCancelled", "recv_woken_after_park", "recv_recheck_found_last_value"],
+    },
 }
